@@ -94,6 +94,7 @@ def check(run):
         genlib.validate_writer(run, w, n=run.n(8, 60))
     for w in ("setfl", "setfl_fs", "tabeam", "tabeam_fs"):
         genlib.validate_eam_writer(run, w, n=run.n(6, 40))
+    genlib.validate_tabulation_objects(run, n=run.n(4, 30))
     run.rule = ("for each of 12 targets and each model shape (quick: 1 shape, thorough: 3 shapes; 1-2 potentials, 1-2 elements, nr 4..8, with/without analytic derivatives): a fault-free run records the "
                 "evaluation/write event sequence (compared with the Lean trace), then EVERY k in 1..(number of evaluations) is made to raise and the destination must be empty; "
                 "potable: formula leaving its domain at the first / an interior / the last grid point for every text target; distinct = (target, shape, k)")
